@@ -33,6 +33,9 @@ pub const EP_STREAM_IN: u8 = 0x83;
 
 pub const MAGIC: u32 = 0x4356_3355;
 
+/// more receives for one command than any u16 retry count allows
+pub const RUNAWAY_RECVS: u32 = 70_000;
+
 /* ------------------------------------------------------------------------- */
 /* libusb error kinds (copyable mirror of `LibUsbError`)                     */
 /* ------------------------------------------------------------------------- */
@@ -528,6 +531,9 @@ pub struct DevState {
     /// what a conforming host must never do (malformed command, limit exceeded, ...).
     pub host_errors: Vec<String>,
     pub claimed: BTreeSet<u8>,
+    /// set when the host polled one command more than `RUNAWAY_RECVS` times (an unbounded
+    /// retry loop); the device then reports `NoDevice` to break the loop.
+    pub runaway: bool,
     n_control: u32,
     n_clear_halt: u32,
     resp: Responses,
@@ -673,6 +679,18 @@ impl DevState {
                 other => mutate(&mut final_pkt, other),
             }
         }
+        // whatever the fault plan produced: a packet the host will read as a pending ack never
+        // announces more than 1 ms (the host really sleeps that long; time is not under test)
+        fn clamp_pending_timeout(p: &mut Vec<u8>) {
+            if p.len() >= 16 && le(&p[6..8]) == ACK_PENDING as u64 && le(&p[14..16]) > 1 {
+                p[14] = 1;
+                p[15] = 0;
+            }
+        }
+        clamp_pending_timeout(&mut final_pkt);
+        for p in pending_override.values_mut() {
+            clamp_pending_timeout(p);
+        }
         self.resp = Responses {
             n_pending,
             sent: 0,
@@ -720,6 +738,7 @@ impl FakeUsb {
                 recvs: 0,
                 host_errors: vec![],
                 claimed: BTreeSet::new(),
+                runaway: false,
                 n_control: 0,
                 n_clear_halt: 0,
                 resp: Responses::default(),
@@ -781,6 +800,14 @@ impl VerifUsb for FakeUsb {
         st.recvs += 1;
         let nth = st.resp.n_recv;
         st.resp.n_recv += 1;
+        if nth > RUNAWAY_RECVS {
+            st.runaway = true;
+            if st.log_wire {
+                let buf_len = buf.len();
+                st.wire.push(Wire::Recv { buf_len, res: Err(UsbErr::NoDevice) });
+            }
+            return Err(LibUsbError::NoDevice);
+        }
         let res: Result<Vec<u8>, UsbErr> = if let Some(e) = st.resp.recv_errs.get(&nth).copied() {
             let _lost = st.next_packet();
             Err(e)
@@ -1014,4 +1041,34 @@ pub fn data_pattern(len: usize, seed: u64) -> Vec<u8> {
 
 pub fn data_digest(d: &[u8]) -> String {
     format!("n={} d={:016x}", d.len(), fnv_b(FNV_INIT_, d))
+}
+
+/// The transport's answers of a wire log as a replay script for the Lean driver `drv_c07`
+/// (`S-`/`S!Err` send, `R=<hex>`/`R!Err` receive, `C-`/`C!Err` control request).
+pub fn wire_script(wire: &[Wire]) -> String {
+    fn hx(b: &[u8]) -> String {
+        if b.is_empty() {
+            return "-".into();
+        }
+        let mut s = String::with_capacity(b.len() * 2);
+        for x in b {
+            s.push_str(&format!("{:02x}", x));
+        }
+        s
+    }
+    let opt = |tag: char, e: &Option<UsbErr>| match e {
+        None => format!("{tag}-"),
+        Some(e) => format!("{tag}!{}", e.name()),
+    };
+    let mut out: Vec<String> = vec![];
+    for w in wire {
+        out.push(match w {
+            Wire::Send { err, .. } => opt('S', err),
+            Wire::Recv { res: Ok(p), .. } => format!("R={}", hx(p)),
+            Wire::Recv { res: Err(e), .. } => format!("R!{}", e.name()),
+            Wire::Claim(_, e) | Wire::Release(_, e) | Wire::ClearHalt(_, e) => opt('C', e),
+            Wire::Control { err, .. } => opt('C', err),
+        });
+    }
+    out.join(" ")
 }
